@@ -808,7 +808,8 @@ def iterate(I, it):
     if isinstance(it, SBytes):
         n = it.concrete_len()
         if n is None:
-            raise Undecided("iteration over bytes of symbolic length")
+            # multi-way decision over the feasible lengths (each explored); needs a bound from the harness
+            n = I.e.choose_value(it.ln, max_values=70)
         return [from_bv(z3.simplify(it.at(z3.IntVal(k))), 8) for k in range(n)]
     if isinstance(it, SRange):
         raise Undecided("iteration over symbolic range")
